@@ -290,6 +290,25 @@ func (agc *AggregatorContext) PrepareRoundEndBlock(block uint64) (newRoundFeeder
 	return newRoundFeederIDs
 }
 
+// CloseFinalizedRounds is used when the context is rebuilt from the store after a restart: every open round
+// whose round id has already been recorded for its token (nextRoundID(tokenID) is beyond it) is marked closed
+// and its worker is dropped, as they are on a node that has been running since the price was finalized.
+func (agc *AggregatorContext) CloseFinalizedRounds(nextRoundID func(tokenID uint64) uint64) {
+	for feederID, round := range agc.rounds {
+		if round.status != roundStatusOpen {
+			continue
+		}
+		feeder := agc.params.GetTokenFeeder(feederID)
+		if feeder == nil {
+			continue
+		}
+		if nextRoundID(feeder.TokenID) > round.nextRoundID {
+			round.status = roundStatusClosed
+			delete(agc.aggregators, feederID)
+		}
+	}
+}
+
 // SetParams sets the params field of aggregatorContext“
 func (agc *AggregatorContext) SetParams(p *types.Params) {
 	agc.params = p
